@@ -31,7 +31,7 @@ SeedA ==
   << In(1, 1), [C("InitAdd") EXCEPT !.g = 1, !.v = 2],
      Node(<<1, 2>>, 1, 1), Node(<<6>>, 1, 1), Node(<<6, 1>>, 1, 2), Node(<<8, 6, 1>>, 1, 3), Out(3, 9),
      Node(<<8>>, 1, 2), Sub(5, 3), Out(2, 10), Sub(2, 2), Out(1, 7),
-     Ty(1, "FLOAT"), Sh(1, <<2, 3>>), Ty(6, "FLOAT"), Sh(6, <<-1, 3>>), Ty(9, "INT64"),
+     Ty(1, "FLOAT"), Sh(1, <<2, 3>>), Ty(6, "FLOAT"), Sh(6, <<-1, 0, -3>>), Ty(9, "INT64"),
      Ty(2, DefaultTy), Sh(2, DefaultSh),      \* the initializer b declares exactly the type and shape of its tensor
      [C("MetaPut") EXCEPT !.v = 1, !.name = "k1"], [C("SetDoc") EXCEPT !.v = 8, !.name = "d1"],
      [C("NodeMetaPut") EXCEPT !.n = 1, !.name = "k1"], [C("AttrPut") EXCEPT !.n = 1, !.name = "alpha"],
@@ -116,7 +116,7 @@ EditCalls ==
   \cup {[C("InitAdd") EXCEPT !.g = g, !.v = v] : g \in {1, 2}, v \in EV \cap {2, 3, 5}}
   \cup {[C("InitDel") EXCEPT !.g = g, !.name = nm] : g \in {1, 2}, nm \in {"a", "b"}}
   \cup {[C("SetType") EXCEPT !.v = v, !.name = t] : v \in EV, t \in {"", "INT64"}}
-  \cup {[C("SetShape") EXCEPT !.v = v, !.vs = d] : v \in EV, d \in {NoShape, <<-1, 2>>, <<1>>}}   \* <<1>>: the shape of the default tensor (declared = the tensor's)
+  \cup {[C("SetShape") EXCEPT !.v = v, !.vs = d] : v \in EV, d \in {NoShape, <<-1, 0>>, <<1>>}}   \* <<1>>: the shape of the default tensor (declared = the tensor's)
   \cup {[C("MetaPut") EXCEPT !.v = v, !.name = "k2"] : v \in EV}
   \cup {[C("ValMetaPut") EXCEPT !.v = v, !.name = "k2"] : v \in EV \cap {1, 6}}
   \cup {[C("SetDoc") EXCEPT !.v = v, !.name = "d2"] : v \in EV}
